@@ -286,6 +286,7 @@ type FuncResult struct {
 	Noops       []string
 	Notes       []string
 	Inputs      []inputVar
+	Used        []*FuncContract // callee contracts (non-extern) relied upon
 }
 
 func newRun(e *Engine, fn *ssa.Function, fc *FuncContract) *Run {
@@ -306,6 +307,9 @@ func (e *Engine) verifyFunc(fc *FuncContract) (res *FuncResult) {
 	r := newRun(e, fn, fc)
 	defer func() {
 		res.Inlined, res.Externs, res.Natives, res.Noops = keysOf(r.inlined), keysOf(r.externs), keysOf(r.natives), keysOf(r.noops)
+		for fc := range r.usedContracts {
+			res.Used = append(res.Used, fc)
+		}
 		res.Notes = r.assumeNotes
 		for _, a := range r.axiomsUsed {
 			res.Notes = append(res.Notes, "assumed axiom: "+a)
